@@ -299,4 +299,7 @@ def features(case):
         yield 'need_normalized'
     if case['src']['time_limit']:
         yield 'time_limit(forked solver)'
+    if case['src'].get('k') == 'planted':
+        yield 'planted-instance'
+        return
     yield 'basis-' + case['src']['basis_kind'] + '-' + case['src']['spelled']
